@@ -8,6 +8,7 @@ from ..rules import common
 from .c15 import asg, key_of, fn, _reach_until_ret, handler_covers
 
 TITLE = "Each HTTP request gets exactly one well-formed response, in order"
+TECHNIQUE = 'finite predicate abstraction with a ghost send counter (at most one send command per request, every exit accounted for); dataflow-shape rules for Content-Length sources; who-may-invoke + handler coverage for user handlers; proof-of-serialisation search at the dispatch site'
 HS = "iora::network::HttpServer"
 HSF = "iora/network/http_server.hpp"
 SENDERS = ("sendAsync", "sendRaw", "sendRawForSse", "sendErrorResponse", "send", "sendSync")
